@@ -158,7 +158,7 @@ def modelSearchS (d : SDump) (o : Opts) : Option (List HitS) :=
   Model.SearchB.hitsS Model.SearchRe.litRegex Model.SearchShow.searchScalar d o
 
 def specSearchS (d : SDump) (o : Opts) : Option (List HitS) :=
-  expectedS Model.SearchRe.litRegex Model.SearchShow.searchScalar d o
+  expectedS Model.SearchRe.litRegex specScalar d o
 
 /-- args: pattern(hex), caseSensitive, includeRow, maxResults, dump -/
 def searchbytesEval (args : List String) : String :=
@@ -331,7 +331,7 @@ def modelSearchU (d : Dump) (o : Opts) : Option (List Hit) :=
   (Model.Search.searchInDump tableRegex Model.SearchShow.searchScalar d o).map (·.map Model.Search.toHit)
 
 def specSearchU (d : Dump) (o : Opts) : Option (List Hit) :=
-  expected tableRegex Model.SearchShow.searchScalar d o
+  expected tableRegex specScalar d o
 
 /-- every text of the dump the matcher can be asked about is in the corpus -/
 def dumpInCorpus (d : Dump) : Bool :=
